@@ -332,6 +332,15 @@ pub fn run_l2(cfg: &Cfg, prop: L2) -> i32 {
                     }
                 }
             }
+            // C11: the other candidates of a run are part of the circumstances under which a policy
+            // gets installed: every other run has, among the good ones, candidates whose
+            // expression names a set the IRR does not know (the agent skips them)
+            if prop == L2::C11 && (idx + step as u64) % 2 == 0 {
+                for u in 0..r.range(1, 3) {
+                    managed.insert(format!("{}-unknown", ["aa", "mm", "zz"][u % 3]), (format!("AS-DOES-NOT-EXIST-{u}"), None));
+                }
+                rep.count("agent_runs_with_unevaluable_candidates_among_the_good_ones");
+            }
             // C03: from the second step on, make installed policies fail
             let mut failing: BTreeSet<String> = BTreeSet::new();
             let mut irr_down = false;
